@@ -2,6 +2,7 @@ import Lean.Data.Json
 import Driver.Util
 import GqlgenVerif.Model.Rewrite
 import GqlgenVerif.Model.RewriteSpec
+import GqlgenVerif.Model.PruneWalk
 /-!
 Line-protocol driver for C19. Every input line is `<op> <json>`, the JSON being one observation of the Go
 harness (go/harness/c19): `{layout, before:[file], schema:[obj], after:[file], names:[{name, goPrivate, goPublic, title}]}`
@@ -10,9 +11,9 @@ harness (go/harness/c19): `{layout, before:[file], schema:[obj], after:[file], n
   regen <obs>  → JSON: the model's prediction of the regenerated files (methods, objects, reserved and
                  pruned imports, leftover text, how the WARNING block is written, lexical validity of the tail)
   chk <obs>    → JSON list of Spec violations of the implementation's own output (`[]` = property holds)
-  gen          → the regenerated constants (Gen/RewriteOffsets.lean) as JSON
+  gen          → the regenerated constants (Gen/RewriteOffsets.lean, Gen/PruneFacts.lean) as JSON
 -/
-open Lean GqlgenVerif.Rewrite GqlgenVerif.Gen.RewriteOffsets
+open Lean GqlgenVerif.Rewrite GqlgenVerif.Gen.RewriteOffsets GqlgenVerif.PruneWalk
 namespace Driver.C19
 
 def str (j : Json) (k : String) : String := (j.getObjValAs? String k).toOption.getD ""
@@ -34,9 +35,10 @@ def toDecl (j : Json) : Decl :=
 def toFile (j : Json) : File :=
   { name := str j "name", imports := (arr j "imports").map toImport, decls := (arr j "decls").map toDecl }
 
+def toSels (j : Json) : List SelBase := (arr j "sels").map fun x => ⟨str x "name", boolD x "resolved" false⟩
+
 def toAfter (j : Json) : Spec.AfterFile :=
-  { file := toFile j, remaining := txt j "remaining", parseOK := boolD j "parseOK" false,
-    used := (arr j "used").filterMap fun x => x.getStr?.toOption }
+  { file := toFile j, remaining := txt j "remaining", parseOK := boolD j "parseOK" false, sels := toSels j }
 
 def toField (j : Json) : Field := ⟨str j "goName", str j "name", str j "file", boolD j "isResolver" false⟩
 def toObj (j : Json) : Obj := ⟨str j "name", str j "file", (arr j "fields").map toField⟩
@@ -71,12 +73,12 @@ def regen (j : Json) : Json :=
   let out := regenerate cfg before sch
   Json.arr (out.map fun nf =>
     let used := match after.find? (·.file.name == nf.name) with
-      | some a => a.used
+      | some a => usedNames a.sels   -- the walk of getUnusedImports as regenerated (Gen/PruneFacts)
       | none => []
     Json.mkObj [
       ("name", nf.name), ("hasRoot", nf.hasRoot),
       ("reserved", Json.arr (nf.imports.map importJson).toArray),
-      ("pruned", Json.arr ((prune used nf.imports).map importJson).toArray),
+      ("pruned", Json.arr ((nf.imports.filter fun i => keepName used (printedLocal i)).map importJson).toArray),
       ("methods", Json.arr (nf.methods.map methodJson).toArray),
       ("objects", Json.arr (nf.objects.map Json.str).toArray),
       ("accessors", Json.arr (nf.objects.map fun o => Json.str (accessorName cfg o)).toArray),
@@ -89,6 +91,7 @@ def violJson : Spec.Violation → Json
   | .notValidGo f => Json.mkObj [("kind", "not-valid-go"), ("file", f)]
   | .method r n w => Json.mkObj [("kind", "method"), ("recv", r), ("name", n), ("what", w)]
   | .importLost f a p => Json.mkObj [("kind", "import-lost"), ("file", f), ("alias", a), ("path", p)]
+  | .unusedImport f a p => Json.mkObj [("kind", "unused-import"), ("file", f), ("alias", a), ("path", p)]
   | .declLost f i n => Json.mkObj [("kind", "decl-lost"), ("file", f), ("idx", i), ("name", n)]
   | .fileGone f => Json.mkObj [("kind", "file-gone"), ("file", f)]
 
@@ -97,7 +100,8 @@ def chk (j : Json) : Json :=
   let before := (arr j "before").map toFile
   let sch := (arr j "schema").map toObj
   let after := (arr j "after").map toAfter
-  Json.arr ((Spec.violations cfg before sch after).map violJson).toArray
+  let bsels := (arr j "before").map fun f => (str f "name", toSels f)
+  Json.arr ((Spec.violations cfg before bsels sch after).map violJson).toArray
 
 def genJson : Json :=
   Json.mkObj [("bodyStartOff", bodyStartOff), ("bodyEndOff", bodyEndOff), ("skipCopied", skipCopied),
@@ -108,7 +112,11 @@ def genJson : Json :=
               ("markStruct", Json.arr #[toString (repr markStructSingle), toString (repr markStructFollow)]),
               ("lookupAccessor", Json.arr #[toString (repr lookupAccessorSingle), toString (repr lookupAccessorFollow)]),
               ("emitRecv", toString (repr emitRecv)), ("emitAccessor", toString (repr emitAccessor)),
-              ("emitAccessorRet", toString (repr emitAccessorRet)), ("emitStruct", toString (repr emitStruct))]
+              ("emitAccessorRet", toString (repr emitAccessorRet)), ("emitStruct", toString (repr emitStruct)),
+              ("pruneParseFlags", Json.arr (GqlgenVerif.Gen.PruneFacts.parseFlags.map Json.str).toArray),
+              ("pruneSkipResolvedBase", GqlgenVerif.Gen.PruneFacts.skipResolvedBase),
+              ("pruneDropsUsed", GqlgenVerif.Gen.PruneFacts.dropsUsed),
+              ("pruneNeverUnused", Json.arr (GqlgenVerif.Gen.PruneFacts.neverUnused.map Json.str).toArray)]
 
 def step (line : String) : String :=
   let (op, rest) := match line.splitOn " " with
